@@ -19,6 +19,7 @@ UNITS = {
     "u19_import": {"verus": "specs/u19_import.vt.rs"},
     "u20_chunkparse": {"verus": "specs/u20_chunkparse.vt.rs"},
     "u21_patchlog_tx": {"verus": "specs/u21_patchlog_tx.vt.rs"},
+    "u32_decodable_alloc": {"verus": "specs/u32_decodable_alloc.vt.rs"},
     "u22_loadnext": {"verus": "specs/u22_loadnext.vt.rs"},
     "u23_exid_order": {"verus": "specs/u23_exid_order.vt.rs"},
     "u24_changeparse": {"verus": "specs/u24_changeparse.vt.rs"},
@@ -266,7 +267,7 @@ PROPERTIES.update({
     "C15": {
         "level": "proof",
         "verus": [("u02_parse", "*"), ("u01_bloom", ["parse", "get_probes", "contains_hash", "add_hash", "set_bit"]), ("u04_ids", ["exid_to_opid", "op_cursor_to_opid", "new"]),
-                  ("u04c_codecs", ["try_from", "parse_0"]), ("u06v_hexane_str", "*"), ("u15_colids", ["try_next", "try_load", "new", "root", "from"]), ("u19_import", "*"), ("u28_valuemeta", "*"), ("u29_hexane_prefix", "*"), ("u30_legacy_rle", "*"), ("u24_changeparse", ["verify_ops", "parse_following_header", "actor_id"])],
+                  ("u04c_codecs", ["try_from", "parse_0"]), ("u06v_hexane_str", "*"), ("u15_colids", ["try_next", "try_load", "new", "root", "from"]), ("u19_import", "*"), ("u28_valuemeta", "*"), ("u29_hexane_prefix", "*"), ("u30_legacy_rle", "*"), ("u32_decodable_alloc", "*"), ("u24_changeparse", ["verify_ops", "parse_following_header", "actor_id"])],
         "kani": ["u04_changehash_try_from_slice", "u15_try_load_total", "u15_raw_read_bytes", "u17_from_raw_string_valid", "u02k_length_prefixed_total", "u02k_apply_n_total", "u06_codec_reads_agree", "u01_parse_wf_quick", "u01_parse_wf_thorough", "u01_query_total", "u03_header_parse_q", "u03_header_parse_t", "u03_chunktype_codes",
                  "u04_exid_try_from_total_q", "u04_exid_try_from_total_t", "u04_cursor_from_str_total_q",
                  "u05_flags_parse_bytes",
@@ -284,7 +285,7 @@ PROPERTIES.update({
     "C17": {
         "level": "proof",
         "verus": [("u02_parse", ["take_n", "take_1", "take_4", "take1", "take4", "rest", "take_rest", "leb128_u64", "leb128_i64", "leb128_u32", "nonzero_leb128_u64", "length_prefixed_bytes", "change_hash", "utf_8"]),
-                  ("u01_bloom", ["parse", "default", "get_probes", "contains_hash", "add_hash"]), ("u28_valuemeta", "*")],
+                  ("u01_bloom", ["parse", "default", "get_probes", "contains_hash", "add_hash"]), ("u28_valuemeta", "*"), ("u32_decodable_alloc", "*")],
         "kani": ["u01_parse_wf_quick", "u01_parse_wf_thorough", "u01_bits_capacity_total", "u06_string_unpack_huge_len", "u02k_length_prefixed_total", "u02k_apply_n_total",
                  "u01_add_contains_3x0", "u01_query_total"],
         "not_under_contract": ["ChangeCollector / OpEncoderStrategy::try_new (OutOfMemory guard)", "document reconstruct", "parse::length_prefixed(g) / apply_n with generic g (allocation sized by the wire count)",
@@ -292,7 +293,8 @@ PROPERTIES.update({
         "assumptions": ["resource use is expressed as bounds on the values that size allocations and loops; wall-clock and heap are not measured"],
         "explanation": "No length/count field decoded by the functions under contract reaches an allocation size or loop bound unchecked: take_n and friends return sub-slices of the input (nothing allocated, "
                        "Ok only if the bytes are there); LEB128 decoding consumes at most 10 bytes; a Bloom query allocates and iterates at most PROBE_LIMIT (1024) probes for every filter satisfying the "
-                       "invariant wf, which BloomFilter::parse establishes for every input (Kani, bounded input length; the probe-count check itself is length independent).",
+                       "invariant wf, which BloomFilter::parse establishes for every input (Kani, bounded input length; the probe-count check itself is length independent); "
+                       "the length-prefixed byte strings of a change chunk's legacy column decoders (<Vec<u8> as Decodable>::decode, U32) allocate at most 1 GiB whatever length the wire declares.",
     },
     "C19": {
         "level": "proof",
